@@ -378,7 +378,8 @@ def setup(ctx: FunctionContext) -> Exec:
         if flamegraph_enabled:
             exec_flamegraph.add(setup_ex.context)
 
-        if err := setup_ex.context.output.error:
+        # a path that got stuck inside a nested call has no error (and no output) of its own
+        if err := setup_ex.context.output.error or setup_ex.context.get_stuck_reason():
             opcode = setup_ex.current_opcode()
             if opcode not in [EVM.REVERT, EVM.INVALID]:
                 warn_code(
